@@ -16,6 +16,8 @@ type PreRouteItem struct {
 
 type PreConfigRoute struct {
 	items map[string]*PreRouteItem
+	// dests in the order they were first configured
+	dests []string
 }
 
 func NewPreRouteItem(protocol string, dest string, nextHop string) (*PreRouteItem, error) {
@@ -48,6 +50,9 @@ func NewPreConfigRoute() *PreConfigRoute {
 func (pcr *PreConfigRoute) AddRouteItem(protocol string, dest string, nextHop string) error {
 	item, err := NewPreRouteItem(protocol, dest, nextHop)
 	if err == nil {
+		if _, ok := pcr.items[dest]; !ok {
+			pcr.dests = append(pcr.dests, dest)
+		}
 		pcr.items[dest] = item
 	}
 	return err
@@ -57,7 +62,9 @@ func (pcr *PreConfigRoute) FindRoute(dest string) (protocol string, host string,
 	if item, ok := pcr.items[dest]; ok {
 		return item.protocol, item.host, item.port, nil
 	}
-	for _, item := range pcr.items {
+	// scan in configuration order, a go map iteration order is random
+	for _, d := range pcr.dests {
+		item := pcr.items[d]
 		matched, err := regexp.MatchString(pcr.toRegularExp(item.dest), dest)
 		if matched && err == nil {
 			return item.protocol, item.host, item.port, nil
